@@ -27,10 +27,14 @@ const (
 	KPreLock            // optional: before acquiring a mutex
 	KNet                // optional: before/after a transport operation
 	KUser               // harness code (handler gates, callers)
+	KUnlock             // optional: right after releasing a mutex (off unless a plan asks for it: "unlock-on")
 	nKinds
 )
 
-var kindNames = [...]string{"yield", "woke", "lock", "start", "atomic", "prelock", "net", "user"}
+// NKinds is the number of park point kinds (the length of a Mask).
+const NKinds = int(nKinds)
+
+var kindNames = [...]string{"yield", "woke", "lock", "start", "atomic", "prelock", "net", "user", "unlock"}
 
 func (k Kind) String() string { return kindNames[k] }
 
@@ -418,7 +422,14 @@ func Lock(m *sync.Mutex, site string) {
 }
 
 // Unlock replaces m.Unlock().
-func Unlock(m *sync.Mutex, site string) { m.Unlock() }
+//
+// Releasing a lock is where a goroutine goes on with what it learnt under it: a pointer taken from a table, a value
+// it is about to use. The optional park point right after it lets the scheduler run the others in exactly that
+// window, which no other instrumented point covers when the next thing the goroutine does is plain memory access.
+func Unlock(m *sync.Mutex, site string) {
+	m.Unlock()
+	optional(KUnlock, site, nil)
+}
 
 // TryLockable reports whether a goroutine parked on m could now take it. Scheduler only (at quiescence).
 func TryLockable(obj any) bool {
@@ -466,7 +477,10 @@ func LockRW(m *sync.RWMutex, site string) {
 		r.park(KLock, site, m)
 	}
 }
-func UnlockRW(m *sync.RWMutex, site string) { m.Unlock() }
+func UnlockRW(m *sync.RWMutex, site string) {
+	m.Unlock()
+	optional(KUnlock, site, nil)
+}
 func RLock(m *sync.RWMutex, site string) {
 	r := current()
 	if r == nil {
@@ -480,7 +494,10 @@ func RLock(m *sync.RWMutex, site string) {
 		r.park(KLock, site, rlock{m})
 	}
 }
-func RUnlock(m *sync.RWMutex, site string) { m.RUnlock() }
+func RUnlock(m *sync.RWMutex, site string) {
+	m.RUnlock()
+	optional(KUnlock, site, nil)
+}
 
 // Atom0 / Atom1 / Atom2 wrap an atomic operation with a preemption point before it.
 func Atom0(site string, f func()) {
